@@ -8,10 +8,12 @@ import (
 )
 
 // Browser is a small standards-conforming client-side cookie store (RFC 6265
-// subset: name/value, Max-Age, Expires, Path; one host). Responses are parsed
-// with net/http — an independent, strict parser — not with fasthttp.
+// subset: name/value, Max-Age, Expires, Path with default-path and
+// path-match; one host). Responses are parsed with net/http — an
+// independent, strict parser — not with fasthttp.
 type Browser struct {
-	Name    string
+	Name string
+	// Cookies is keyed by name + "\x00" + path; use Get/Set/Header.
 	Cookies map[string]*BCookie
 }
 
@@ -23,73 +25,146 @@ type BCookie struct {
 
 func NewBrowser(name string) *Browser { return &Browser{Name: name, Cookies: map[string]*BCookie{}} }
 
-// Apply stores / expires cookies from the Set-Cookie lines of a response
-// (raw wire bytes). It returns the parsed response, or an error if a strict
-// client cannot parse what the server wrote.
+// defaultPath per RFC 6265 5.1.4.
+func defaultPath(reqPath string) string {
+	if i := strings.IndexAny(reqPath, "?#"); i >= 0 {
+		reqPath = reqPath[:i]
+	}
+	if reqPath == "" || reqPath[0] != '/' {
+		return "/"
+	}
+	i := strings.LastIndexByte(reqPath, '/')
+	if i == 0 {
+		return "/"
+	}
+	return reqPath[:i]
+}
+
+// pathMatch per RFC 6265 5.1.4.
+func pathMatch(reqPath, cookiePath string) bool {
+	if i := strings.IndexAny(reqPath, "?#"); i >= 0 {
+		reqPath = reqPath[:i]
+	}
+	if reqPath == "" {
+		reqPath = "/"
+	}
+	if reqPath == cookiePath {
+		return true
+	}
+	if strings.HasPrefix(reqPath, cookiePath) {
+		return strings.HasSuffix(cookiePath, "/") || reqPath[len(cookiePath)] == '/'
+	}
+	return false
+}
+
+// Apply stores / expires cookies from a response to a request for "/".
 func (b *Browser) Apply(resp *Resp, method string) (*http.Response, error) {
+	return b.ApplyAt(resp, method, "/")
+}
+
+// ApplyAt stores / expires the cookies of a response (raw wire bytes) to a
+// request for reqPath: a cookie without Path attribute is scoped to the
+// default-path of the request, and an expiring Set-Cookie only removes the
+// cookie of the same name AND path. It returns the parsed response, or an
+// error if a strict client cannot parse what the server wrote.
+func (b *Browser) ApplyAt(resp *Resp, method, reqPath string) (*http.Response, error) {
 	hr, err := resp.ParseStrict(method)
 	if err != nil {
 		return nil, err
 	}
 	now := time.Now()
 	for _, c := range hr.Cookies() {
-		bc := &BCookie{Name: c.Name, Value: c.Value, Path: c.Path, Raw: c.Raw}
+		path := c.Path
+		if path == "" || path[0] != '/' {
+			path = defaultPath(reqPath)
+		}
+		key := c.Name + "\x00" + path
+		bc := &BCookie{Name: c.Name, Value: c.Value, Path: path, Raw: c.Raw}
 		switch {
 		case c.MaxAge < 0:
-			delete(b.Cookies, c.Name)
+			delete(b.Cookies, key)
 			continue
 		case c.MaxAge > 0:
 			bc.Expires = now.Add(time.Duration(c.MaxAge) * time.Second)
 		case !c.Expires.IsZero():
 			if !c.Expires.After(now) {
-				delete(b.Cookies, c.Name)
+				delete(b.Cookies, key)
 				continue
 			}
 			bc.Expires = c.Expires
 		}
-		b.Cookies[c.Name] = bc
+		b.Cookies[key] = bc
 	}
 	return hr, nil
 }
 
-// Header returns the Cookie request header value ("" if none), dropping
-// expired cookies first.
-func (b *Browser) Header() string {
+func (b *Browser) live() []*BCookie {
 	now := time.Now()
-	var names []string
-	for n, c := range b.Cookies {
+	var out []*BCookie
+	for k, c := range b.Cookies {
 		if !c.Expires.IsZero() && !c.Expires.After(now) {
-			delete(b.Cookies, n)
+			delete(b.Cookies, k)
 			continue
 		}
-		names = append(names, n)
+		out = append(out, c)
 	}
-	sort.Strings(names)
+	// longer paths first, then by name (RFC 6265 5.4)
+	sort.Slice(out, func(i, j int) bool {
+		if len(out[i].Path) != len(out[j].Path) {
+			return len(out[i].Path) > len(out[j].Path)
+		}
+		if out[i].Name != out[j].Name {
+			return out[i].Name < out[j].Name
+		}
+		return out[i].Path < out[j].Path
+	})
+	return out
+}
+
+// Header returns the Cookie header for a request to "/x" style top-level paths
+// (every stored cookie whose path matches "/").
+func (b *Browser) Header() string { return b.HeaderFor("/") }
+
+// HeaderFor returns the Cookie request header value for reqPath ("" if none).
+// For compatibility with top-level test routes a request path directly below
+// the root ("/show") matches cookies of path "/".
+func (b *Browser) HeaderFor(reqPath string) string {
 	var parts []string
-	for _, n := range names {
-		parts = append(parts, n+"="+b.Cookies[n].Value)
+	for _, c := range b.live() {
+		if pathMatch(reqPath, c.Path) {
+			parts = append(parts, c.Name+"="+c.Value)
+		}
 	}
 	return strings.Join(parts, "; ")
 }
 
-// Get returns the stored value of a cookie.
+// Get returns the stored value of a cookie (the one with the longest path).
 func (b *Browser) Get(name string) (string, bool) {
-	c, ok := b.Cookies[name]
-	if !ok {
-		return "", false
+	for _, c := range b.live() {
+		if c.Name == name {
+			return c.Value, true
+		}
 	}
-	if !c.Expires.IsZero() && !c.Expires.After(time.Now()) {
-		delete(b.Cookies, name)
-		return "", false
-	}
-	return c.Value, true
+	return "", false
 }
 
-// Set overwrites a stored cookie value (used to inject corruption).
+// Set overwrites the stored value of a cookie (used to inject corruption);
+// an unknown cookie is created for path "/".
 func (b *Browser) Set(name, value string) {
-	if c, ok := b.Cookies[name]; ok {
-		c.Value = value
-	} else {
-		b.Cookies[name] = &BCookie{Name: name, Value: value, Path: "/"}
+	for _, c := range b.live() {
+		if c.Name == name {
+			c.Value = value
+			return
+		}
+	}
+	b.Cookies[name+"\x00/"] = &BCookie{Name: name, Value: value, Path: "/"}
+}
+
+// Del removes every stored cookie of that name.
+func (b *Browser) Del(name string) {
+	for k, c := range b.Cookies {
+		if c.Name == name {
+			delete(b.Cookies, k)
+		}
 	}
 }
